@@ -278,6 +278,19 @@ Alpha(x) :- W1(x), W2(x);
 Brief(x) :- W1(x), W2(x + 5);
 T(x, y) :- Alpha(x), Brief(y);
 ''', ['T', 'Alpha', 'Brief', 'Stock']),
+  'with_table_shared_by_four_grounded_parents': ('''@Engine("sqlite");
+@Ground(Zbase); @Ground(A1); @Ground(A2); @Ground(A3); @Ground(A4);
+Item(1); Item(2); Item(7);
+Zbase(x) :- Item(x), x > 1;
+W2(x) :- Zbase(x), x > 0;
+W2(x) :- Zbase(x), x > 5;
+Total(s? += x) distinct :- Zbase(x);
+A1(x) :- W2(x), Total(s:);
+A2(x + 1) :- W2(x);
+A3(y) :- Total(s: y);
+A4(x, y) :- W2(x), Total(s: y), W2(y - 2);
+T(a, b, c, d) :- A1(a), A2(b), A3(c), A4(d, e);
+''', ['T', 'A1', 'A2', 'A3', 'A4', 'Zbase']),
   'deep_recursion': ('''@Engine("sqlite");
 @Recursive(N, 25);
 @Ground(Start);
